@@ -59,6 +59,7 @@ class ProcWorld:
         self.obs = [[] for _ in prog["start"]]
         self.marks = []
         self.hooks = []
+        self.late_hooks = {}
         self.nest_rng = nest_rng
         self.sink = _Sink(self)
         self.procs = [_Proc(p + 1, self) for p in range(len(prog["start"]))]
@@ -88,8 +89,17 @@ class ProcWorld:
         sim = Simulation(entities=ents)
         for p, t in enumerate(self.prog["start"], start=1):
             ev = Event(time=Instant(t * self.tick_ns), event_type=f"start{p}", target=self.procs[p - 1])
-            ev.add_completion_hook(lambda when, p=p: self.hooks.append([p, self.ticks(when.nanoseconds)]))
+            hook = lambda when, p=p: self.hooks.append([p, self.ticks(when.nanoseconds)])
+            mode = 0 if self.nest_rng is None else self.nest_rng.randrange(2)
+            if mode == 0:
+                ev.add_completion_hook(hook)            # before the event is scheduled
+            else:
+                # 1: by the process itself in its first segment (after the process has started)
+                self.late_hooks[p] = (mode, ev, hook)
             sim.schedule(ev)
+            if mode == 2:
+                sim.schedule(Event.once(time=Instant(t * self.tick_ns), event_type="hook",
+                                        fn=lambda e, ev=ev, hook=hook: ev.add_completion_hook(hook)))
         for (t, f, v) in self.prog["res"]:
             sim.schedule(Event.once(time=Instant(t * self.tick_ns), event_type="res",
                                     fn=lambda e, f=f, v=v: self.futs[f].resolve(v)))
@@ -118,7 +128,13 @@ class _Proc(Entity):
                      target=self.w.sink, context={"metadata": {"p": self.p, "tag": tag}})
 
     def handle_event(self, event):
-        return self.body(self.w.prog["script"][self.p - 1], 0, None)
+        return self.first(event)
+
+    def first(self, event):
+        late = self.w.late_hooks.get(self.p)
+        if late is not None and late[0] == 1:
+            event.add_completion_hook(late[2])      # added after the process has started
+        return (yield from self.body(self.w.prog["script"][self.p - 1], 0, None))
 
     def body(self, steps, base, recv):
         """Generator following steps[base:], optionally delegating a suffix via `yield from`."""
